@@ -36,6 +36,9 @@ func keyFor(h *History, base, engine string) string {
 	if h.SwapIdx {
 		return swapKey + ":" + engine
 	}
+	if h.KnownKey != "" && engine == h.KnownEngine {
+		return h.KnownKey
+	}
 	return base + ":" + engine
 }
 
